@@ -46,24 +46,30 @@ func (l *DNSNameHyphenInSLD) CheckApplies(c *x509.Certificate) bool {
 }
 
 func (l *DNSNameHyphenInSLD) Execute(c *x509.Certificate) *lint.LintResult {
+	// All names are examined before the verdict is chosen, so that the result does not
+	// depend on where a name that cannot be parsed sits among the others.
+	unparseable := false
 	if c.Subject.CommonName != "" && !util.CommonNameIsIP(c) {
 		domainInfo := c.GetParsedSubjectCommonName(false)
 		if domainInfo.ParseError != nil {
-			return &lint.LintResult{Status: lint.NA}
-		}
-		if strings.HasPrefix(domainInfo.ParsedDomain.SLD, "-") || strings.HasSuffix(domainInfo.ParsedDomain.SLD, "-") {
+			unparseable = true
+		} else if strings.HasPrefix(domainInfo.ParsedDomain.SLD, "-") || strings.HasSuffix(domainInfo.ParsedDomain.SLD, "-") {
 			return &lint.LintResult{Status: lint.Error}
 		}
 	}
 	parsedSANDNSNames := c.GetParsedDNSNames(false)
 	for i := range c.GetParsedDNSNames(false) {
 		if parsedSANDNSNames[i].ParseError != nil {
-			return &lint.LintResult{Status: lint.NA}
+			unparseable = true
+			continue
 		}
 		if strings.HasPrefix(parsedSANDNSNames[i].ParsedDomain.SLD, "-") ||
 			strings.HasSuffix(parsedSANDNSNames[i].ParsedDomain.SLD, "-") {
 			return &lint.LintResult{Status: lint.Error}
 		}
+	}
+	if unparseable {
+		return &lint.LintResult{Status: lint.NA}
 	}
 	return &lint.LintResult{Status: lint.Pass}
 }
